@@ -329,15 +329,53 @@ class OpSet:
         trees = os.path.join(workdir, tag + "-trees.json")
         with open(trees, "w") as f:
             json.dump({n: d.tla_tree() for n, d in self.dbs.items()}, f, separators=(",", ":"))
-        opsf = os.path.join(workdir, tag + "-ops.ndjson")
-        common.write_ndjson(opsf, lines)
-        t = common.tlc("TraceOps", files={trees: "trees.json", opsf: "ops.ndjson"}, workers=1, timeout=timeout,
-                       name=tag + "-tlc", heap="16g")
-        if not t.ok:
-            raise Infra("TraceOps failed:\n" + (t.error or t.out)[-3000:])
-        verdict = json.load(open(os.path.join(t.workdir, "verdict.json")))
-        if verdict["n"] != len(lines):
-            raise Infra("TLC consumed %s of %d operations" % (verdict["n"], len(lines)))
+        CH = int(os.environ.get("VERIF_CHUNK", "4000"))
+        if len(lines) <= CH + CH // 2:
+            opsf = os.path.join(workdir, tag + "-ops.ndjson")
+            common.write_ndjson(opsf, lines)
+            t = common.tlc("TraceOps", files={trees: "trees.json", opsf: "ops.ndjson"}, workers=1, timeout=timeout,
+                           name=tag + "-tlc", heap="16g")
+            if not t.ok:
+                raise Infra("TraceOps failed:\n" + (t.error or t.out)[-3000:])
+            verdict = json.load(open(os.path.join(t.workdir, "verdict.json")))
+            if verdict["n"] != len(lines):
+                raise Infra("TLC consumed %s of %d operations" % (verdict["n"], len(lines)))
+        else:
+            # long traces: consecutive chunks, each judged by its own TLC (the operations are independent: every line
+            # carries its database and the cache state it started from), several at a time
+            from concurrent.futures import ThreadPoolExecutor
+            chunks = [(a, lines[a:a + CH]) for a in range(0, len(lines), CH)]
+
+            def one(arg):
+                a, part = arg
+                # only the trees this chunk refers to
+                names = {ln["db"] for ln in part}
+                tf = os.path.join(workdir, "%s-trees-%d.json" % (tag, a))
+                with open(tf, "w") as fh:
+                    json.dump({n_: self.dbs[n_].tla_tree() for n_ in names}, fh, separators=(",", ":"))
+                of = os.path.join(workdir, "%s-ops-%d.ndjson" % (tag, a))
+                common.write_ndjson(of, part)
+                t_ = common.tlc("TraceOps", files={tf: "trees.json", of: "ops.ndjson"}, workers=1, timeout=timeout,
+                                name="%s-tlc-%d" % (tag, a), heap="8g")
+                os.remove(tf)
+                os.remove(of)
+                if not t_.ok:
+                    raise Infra("TraceOps failed on chunk %d:\n" % a + (t_.error or t_.out)[-3000:])
+                vd = json.load(open(os.path.join(t_.workdir, "verdict.json")))
+                if vd["n"] != len(part):
+                    raise Infra("TLC consumed %s of %d operations (chunk %d)" % (vd["n"], len(part), a))
+                return a, t_, vd
+            with ThreadPoolExecutor(max_workers=6) as ex:
+                done = list(ex.map(one, chunks))
+            verdict = {"n": len(lines), "bad": [], "drift": [], "specbad": []}
+            t = done[0][1]
+            for a, t_, vd in done:
+                if t_ is not t:
+                    t.distinct += t_.distinct
+                    t.generated += t_.generated
+                verdict["bad"] += [dict(b, i=b["i"] + a) for b in vd["bad"]]
+                verdict["drift"] += [dict(b, i=b["i"] + a) for b in vd["drift"]]
+                verdict["specbad"] += [x + a for x in (vd.get("specbad") or [])]
         if verdict.get("specbad"):
             k = verdict["specbad"][0] - 1
             raise Infra("BTree.tla Reference differs from what real SQLite returns on %d operations, e.g. %s on db %s" %
